@@ -20,7 +20,7 @@ EXPLANATION = (
     'watchdog asks for really ends in a new connection attempt (C07.R2 + C07.R3 re-evaluated).'
 )
 ASSUMPTIONS = ["asyncio.timeout(delay)/Timeout.reschedule(when) semantics as documented (delay None = no deadline)", "loop.time() is the clock asyncio.timeout uses"]
-FLOORS = {"C08.R1": 5, "C08.R2": 4, "C08.R3": 7, "C08.R4": 5, "C08.R5": 5, "C08.R6": 1, "C08.R7": 1}
+FLOORS = {"C08.R1": 5, "C08.R2": 4, "C08.R3": 7, "C08.R4": 5, "C08.R5": 5, "C08.R6": 1, "C08.R7": 1, "C08.R8": 1}
 
 
 def run(ctx):
@@ -33,6 +33,10 @@ def run(ctx):
     from .common import reuse
 
     reuse(ctx, "C08.R6", [c07.r2, c07.r3], "a heartbeat reset really re-establishes the connection (C07.R2 reset = disconnect + reconnect and cannot raise, C07.R3 failed attempts are retried)")
+    from . import c15
+
+    reuse(ctx, "C08.R8", [c15.r3, c07.r6], "the heartbeat tasks survive: shutdown() stops them before the socket is closed (a tick during close() would raise in the task and leave its state behind for the next init()), and a failing write is handled inside the socket (OSError handler of the drain), so sending the periodic request cannot end the heartbeat task (C15.R3, C07.R6)",
+          keep=lambda o: "heartbeat" in o.construct.lower() or "write-error" in o.construct or "_drain_message_queue" in o.construct or o.verdict != "HOLDS")
     from . import c01
 
     reuse(ctx, "C08.R7", [c01.r6], "framing the periodic request cannot fail: every packet id fits its header slot (a struct.error raised inside the heartbeat task ends the periodic request for good, after which a healthy link is reset every 330 s) (C01.R6)")
